@@ -47,11 +47,14 @@ def tree_oracle(name, est, rep):
     if any(cnt[j] > cnt[j + 1] for j in range(L - 1)):
         f(f"category counts decrease with depth: {cnt}", "counts")
     # map_deep consistent with stored labels
-    for lev in range(len(est.layers)):
+    for lev in list(range(len(est.layers))) + list(range(-len(est.layers), 0)):       # also counted from the finest level
         try:
             up = est.map_deep(lev, np.asarray(est.layers[lev].labels_a))
             if list(up) != list(D[:, 0]):
                 f(f"map_deep({lev}, labels_a) != top-level labels", "map_deep")
+            one = est.map_deep(lev, int(est.layers[lev].labels_a[0]))
+            if int(one) != int(D[0, 0]):
+                f(f"map_deep({lev}, <single label>) != top-level label of that sample", "map_deep")
         except Exception as e:
             f(f"map_deep({lev}) raises {type(e).__name__}", "map_deep")
     return fails
